@@ -3,6 +3,7 @@ import OmplModel.Proofs.SpaceDistDom
 import OmplModel.Proofs.SpaceDistSO3Code
 import OmplModel.Proofs.SpaceDistSphereLaws
 import OmplModel.Proofs.SpaceDistXLaws
+import OmplModel.Proofs.SpaceDistWeights
 import OmplModel.Generated.Claims
 /-!
 # C06 — state-space distances obey the metric laws each space claims
@@ -296,6 +297,15 @@ theorem compound_dist_is_weighted_sum (w : ℝ) (h t : Space ℝ) (ht : isCList 
   ⟨dist_ccons w h t ht a1 a2 b1 b2, by simp [SpaceDist.dist]⟩
 example : isCList (.ccons (1 / 2) .so2 .cnil : Space ℝ) = true := rfl
 
+/-- the weighted-sum clause in closed form, for EVERY weight vector (no hypothesis on the weights: in particular every
+non-negative one, however small — `CompoundStateSpace::distance` has no lower cut-off, unlike `getMaximumExtent`):
+the distance of the compound `[(w₀,s₀), …, (wₙ₋₁,sₙ₋₁)]` between the states `(a₀,…)`, `(b₀,…)` is `Σ wᵢ·dist sᵢ aᵢ bᵢ`. -/
+theorem compound_dist_weighted_sum_all (cs : List (ℝ × Space ℝ)) (as bs : List (St ℝ)) :
+    dist (compoundOf cs) (stateOf as) (stateOf bs) = weightedSum cs as bs := dist_compoundOf cs as bs
+example : weightedSum [(1, .rv [0] [1]), (1 / 2 ^ 53, .time true 0 (2 ^ 60))] [.rv [0], .time 0] [.rv [0], .time (2 ^ 60)]
+    = 128 := by
+  simp only [weightedSum, SpaceDist.dist, rvDist_self, timeDist_real]; norm_num
+
 /-- the reported extent of a compound is the weighted sum of its components' extents (weights ≥ 2⁻⁵²). -/
 theorem compound_extent_is_weighted_sum (w : ℝ) (h t : Space ℝ) (ht : isCList t = true) (hw : (eps : ℝ) ≤ w) :
     maxExtent (.ccons w h t) = w * maxExtent h + maxExtent t := maxExtent_ccons w h t ht hw
@@ -308,11 +318,28 @@ theorem compound_metric (sp : Space ℝ) (h : AllLeaves (fun w => 0 < w) Laws sp
 example : AllLeaves (fun w => 0 < w) Laws (.ccons 2 (.rv [0] [1]) (.ccons 1 .so2 .cnil) : Space ℝ) :=
   ⟨by norm_num, rv_laws _ _, ⟨by norm_num, so2_laws, trivial, rfl⟩, rfl⟩
 
-/-- the same for the extent law (weights ≥ 2⁻⁵², below which the code drops a component from the extent). -/
-theorem compound_extent (sp : Space ℝ) (h : AllLeaves (fun w => (eps : ℝ) ≤ w) ExtentLaw sp) : ExtentLaw sp :=
-  compound_extent_aux sp h
-example : AllLeaves (fun w => (eps : ℝ) ≤ w) ExtentLaw (.ccons 1 (.rv [0] [1]) (.ccons (1 / 2) .so2 .cnil) : Space ℝ) := by
-  refine ⟨by rw [eps_real]; norm_num, rv_extent _ _, ⟨by rw [eps_real]; norm_num, so2_extent, trivial, rfl⟩, rfl⟩
+/-- the same for the extent law, for weights that are `0` (the component counts neither in the distance nor in the
+extent) or `≥ 2⁻⁵²` (it counts in both).  For `0 < w < 2⁻⁵²` the law FAILS: `compound_extent_subeps_weight_fails`. -/
+theorem compound_extent (sp : Space ℝ) (h : AllLeaves (fun w => w = 0 ∨ (eps : ℝ) ≤ w) ExtentLaw sp) : ExtentLaw sp :=
+  compound_extent_aux0 sp h
+example : AllLeaves (fun w => w = 0 ∨ (eps : ℝ) ≤ w) ExtentLaw
+    (.ccons 1 (.rv [0] [1]) (.ccons (1 / 2) .so2 (.ccons 0 (.time true 0 1) .cnil)) : Space ℝ) := by
+  refine ⟨Or.inr (by rw [eps_real]; norm_num), rv_extent _ _,
+    ⟨Or.inr (by rw [eps_real]; norm_num), so2_extent, ⟨Or.inl rfl, time_extent _ _, trivial, rfl⟩, rfl⟩, rfl⟩
+
+/-- F360: a component with a legal weight `0 < w < 2⁻⁵²` is counted by `CompoundStateSpace::distance` but dropped by
+the `weights_[i] >= epsilon` guard of `getMaximumExtent`: in `[(1, time [0,1]), (2⁻⁵³, time [0, 2⁶⁰])]` the in-bounds states
+`(0, 0)` and `(0, 2⁶⁰)` are at distance `128`, the reported extent is `1`. -/
+theorem compound_extent_subeps_weight_fails :
+    ((0 : ℝ) < 1 / 2 ^ 53 ∧ (1 / 2 ^ 53 : ℝ) < eps) ∧ maxExtent subEpsSpace = 1 ∧ ¬ ExtentLaw subEpsSpace :=
+  ⟨subEps_weight_legal, subEps_extent, subEps_extent_fails⟩
+
+/-- with the guard `weights_[i] > 0` (notes/C06-fix-F360.diff; `maxExtentFixed`) the extent law holds for EVERY
+non-negative weight vector, under any nesting: no lower cut-off is left. -/
+theorem compound_extent_repaired (sp : Space ℝ) (h : AllLeaves (fun w => 0 ≤ w) LeafExtent sp) : ExtentLawFixed sp :=
+  compound_extent_fixed_aux sp h
+example : AllLeaves (fun w => 0 ≤ w) LeafExtent subEpsSpace ∧ maxExtentFixed subEpsSpace = 129 := by
+  refine ⟨⟨by norm_num, ⟨time_extent _ _, rfl⟩, ⟨by norm_num, ⟨time_extent _ _, rfl⟩, trivial, rfl⟩, rfl⟩, subEps_extent_fixed⟩
 
 /-- every space built from Rⁿ, SO(2), time, discrete and torus leaves by weighted compounds (weights > 0) and
 wrappers, nested to any depth, satisfies the five laws — e.g. SE(2) = [(1, R²), (½, SO(2))]. -/
@@ -378,24 +405,47 @@ theorem empty_metric (a b : St ℝ) (ha : inDom (SpaceX.empty : SpaceX ℝ).layo
   ⟨empty_dist a b, empty_equal a b ha hb, by simp [extentX], rfl⟩
 example : inDom (SpaceX.empty : SpaceX ℝ).layout (.rv []) := by simp [SpaceX.layout, inDom, rvIn]
 
-/-- SpaceTimeStateSpace (claims a symmetric distance, NOT a metric): zero to itself, symmetric (the reachability test
-is symmetric too), and whenever finite: non-negative, positive between states that are not `equalStates`
-(`0 < timeWeight < 1`); its extent is `+∞`, so the extent law is vacuous. -/
-theorem spacetime_claimed_laws (vmax tw : ℝ) (bd : Bool) (lo hi : ℝ) (inner : Space ℝ) (hv : 0 < vmax) (h0 : 0 < tw)
-    (h1 : tw < 1) (L : Laws inner) :
-    (∀ a, inDom (SpaceX.spacetime vmax tw bd lo hi inner).layout a →
-      distX (.spacetime vmax tw bd lo hi inner) a a = some 0) ∧
-    (∀ a b, inDom (SpaceX.spacetime vmax tw bd lo hi inner).layout a →
-      inDom (SpaceX.spacetime vmax tw bd lo hi inner).layout b →
-      distX (.spacetime vmax tw bd lo hi inner) a b = distX (.spacetime vmax tw bd lo hi inner) b a) ∧
-    (∀ a b d, inDom (SpaceX.spacetime vmax tw bd lo hi inner).layout a →
-      inDom (SpaceX.spacetime vmax tw bd lo hi inner).layout b →
-      distX (.spacetime vmax tw bd lo hi inner) a b = some d →
-      0 ≤ d ∧ (equalX (.spacetime vmax tw bd lo hi inner) a b = false → 0 < d)) ∧
-    extentX (.spacetime vmax tw bd lo hi inner) = none ∧ claimsMetricX (.spacetime vmax tw bd lo hi inner) = false :=
-  let ⟨a, b, c⟩ := spacetime_laws vmax tw bd lo hi inner hv h0 h1 L
+/-- SpaceTimeStateSpace (claims a symmetric distance, NOT a metric), with its CURRENT weights `w0`, `w1` (set by the
+constructor, changeable by `setSubspaceWeight`): zero to itself, symmetric (the reachability test is symmetric too), and
+whenever finite: non-negative, positive between states that are not `equalStates` for ANY two positive weights (no lower
+cut-off); its extent is `+∞`, so the extent law is vacuous. -/
+theorem spacetime_claimed_laws (vmax w0 w1 : ℝ) (bd : Bool) (lo hi : ℝ) (inner : Space ℝ) (hv : 0 < vmax) (h0 : 0 < w0)
+    (h1 : 0 < w1) (L : Laws inner) :
+    (∀ a, inDom (SpaceX.spacetime vmax w0 w1 bd lo hi inner).layout a →
+      distX (.spacetime vmax w0 w1 bd lo hi inner) a a = some 0) ∧
+    (∀ a b, inDom (SpaceX.spacetime vmax w0 w1 bd lo hi inner).layout a →
+      inDom (SpaceX.spacetime vmax w0 w1 bd lo hi inner).layout b →
+      distX (.spacetime vmax w0 w1 bd lo hi inner) a b = distX (.spacetime vmax w0 w1 bd lo hi inner) b a) ∧
+    (∀ a b d, inDom (SpaceX.spacetime vmax w0 w1 bd lo hi inner).layout a →
+      inDom (SpaceX.spacetime vmax w0 w1 bd lo hi inner).layout b →
+      distX (.spacetime vmax w0 w1 bd lo hi inner) a b = some d →
+      0 ≤ d ∧ (equalX (.spacetime vmax w0 w1 bd lo hi inner) a b = false → 0 < d)) ∧
+    extentX (.spacetime vmax w0 w1 bd lo hi inner) = none ∧ claimsMetricX (.spacetime vmax w0 w1 bd lo hi inner) = false :=
+  let ⟨a, b, c⟩ := spacetime_laws vmax w0 w1 bd lo hi inner hv h0 h1 L
   ⟨a, b, c, rfl, rfl⟩
-example : Laws (.rv [0, 0] [1, 1] : Space ℝ) := rv_laws _ _
+example : Laws (.rv [0, 0] [1, 1] : Space ℝ) ∧ (0:ℝ) < 1 / 2 ^ 60 := ⟨rv_laws _ _, by norm_num⟩
+
+/-- SpaceTimeStateSpace: the constructor refuses a time weight outside `[0, 1]` and otherwise installs the weights
+`1 - timeWeight`, `timeWeight`; whenever the distance is finite it IS the weighted sum of the two components' distances
+with the current weights, whatever they are (no cut-off). -/
+theorem spacetime_dist_is_weighted_sum (vmax w0 w1 tw : ℝ) (bd : Bool) (lo hi : ℝ) (inner : Space ℝ) (a1 b1 : St ℝ)
+    (t1 t2 d : ℝ) :
+    (SpaceX.mkSpacetime? vmax tw bd lo hi inner =
+      if tw < 0 ∨ 1 < tw then none else some (.spacetime vmax (1 - tw) tw bd lo hi inner)) ∧
+    (distX (.spacetime vmax w0 w1 bd lo hi inner) (.ccons a1 (.ccons (.time t1) .cnil)) (.ccons b1 (.ccons (.time t2) .cnil))
+        = some d →
+      d = w0 * SpaceDist.dist inner a1 b1 + w1 * SpaceDist.dist (.time bd lo hi) (.time t1) (.time t2)) := by
+  refine ⟨mkSpacetime_real vmax tw bd lo hi inner, fun h => ?_⟩
+  rw [spacetime_dist_real] at h
+  split_ifs at h
+  simp only [SpaceDist.dist, timeDist_real]
+  exact (Option.some.inj h).symm
+example : distX (.spacetime 1 (1 / 2) (1 / 2) false 0 0 .so2 : SpaceX ℝ) (.ccons (.so2 0) (.ccons (.time 0) .cnil))
+    (.ccons (.so2 0) (.ccons (.time 1) .cnil)) = some (1 / 2) := by
+  rw [spacetime_dist_real]
+  simp only [SpaceDist.dist, so2Dist_self]
+  rw [if_neg (by rw [fltEps_real]; norm_num)]
+  norm_num
 
 /-- Projected / Atlas / TangentBundle state spaces: distance, equalStates, satisfiesBounds and extent ARE the ambient
 space's (so they have exactly the ambient space's laws), and `isMetricSpace()` is withdrawn. -/
